@@ -884,6 +884,13 @@ func grammarShards(tier string) []mc.Shard {
 						return false
 					}
 					distinct[want] = struct{}{}
+					// emptiness and count agree with the bins (a block of zero counts adds nothing)
+					if total := exp.Total(); dec.IsEmpty() != (total == 0) || dec.GetCount() != total {
+						res.Violations = append(res.Violations, mc.Violation{Property: "C07", Clause: "C07.accepts-valid-streams", Scenario: name, Seed: "stream",
+							History: []string{fmt.Sprintf("% x", stream), t.String()},
+							Detail:  fmt.Sprintf("the well-formed stream % x decoded into %s stores reports empty=%v count=%v; its bins hold a total weight of %v", stream, t, dec.IsEmpty(), dec.GetCount(), total)})
+						return false
+					}
 				}
 				// the same stream merged into a paginated receiver whose buffer is already
 				// past its compaction trigger (100 scattered unit entries on each side)
@@ -1047,6 +1054,8 @@ func grammarShards(tier string) []mc.Shard {
 				exp.Zero = c.Zero
 				if err != nil || SketchContent(dec) != exp.Content() {
 					fails = append(fails, mc.Fail{Clause: "C07.accepts-valid-streams", Detail: fmt.Sprintf("stream % x into %s: err=%v want %s", stream, t, err, exp.Content())})
+				} else if total := exp.Total(); dec.IsEmpty() != (total == 0) || dec.GetCount() != total {
+					fails = append(fails, mc.Fail{Clause: "C07.accepts-valid-streams", Detail: fmt.Sprintf("stream % x into %s: empty=%v count=%v, bins total %v", stream, t, dec.IsEmpty(), dec.GetCount(), total)})
 				}
 			}
 			if history[1] == "P-cleared-pages" || history[1] == "any" {
